@@ -1,4 +1,5 @@
 import XyzProofs.Refine.Harvest
+import XyzProofs.Lemmas.TwoMode
 /-!
 # `save_merge_ds`, `Harvester.delete_ds / full_ds / expand_dims / drop_sel / harvest_combos / harvest_cases`:
 # the hand-written models ARE the translated source (state skeletons, harness/anchors_storeio.py)
@@ -164,7 +165,7 @@ theorem hvFullDs_refines (st : St) (sid : Nat) (s : Session) (hs : st.sessions[s
     first
     | (simp only [Gen.hvFullDs, stBind_pure, hmn] <;> cases s.mem.isNone <;> simp
        done)
-    | (have e1 : @Gen.hvLoadFull = @Gen.Default.hvLoadFull := rfl
+    | (have e1 : @Gen.hvLoadFull = @Gen.Default.hvLoadFull := by same_gen [Gen.hvLoadFull, Gen.Default.hvLoadFull]
        simp only [Gen.hvFullDs, Gen.Default.hvFullDs, stBind_pure, e1, hmn] <;> cases s.mem.isNone <;> simp
        done)
   rw [key, hvLoadFull_refines]
@@ -201,8 +202,8 @@ theorem hvExpandDims_eq_spec {S D G E : Type} (o : StoreOps S D G E) (x : StoreE
      congr 1; funext st1
      cases (if o.memIsNone st1 then Except.error x.noneAttr else xf (o.mem st1)) <;> cases dn <;> simp
      done)
-  | (have e1 : @Gen.hvFullDs = @Gen.Default.hvFullDs := rfl
-     have e2 : @Gen.hvSaveFull = @Gen.Default.hvSaveFull := rfl
+  | (have e1 : @Gen.hvFullDs = @Gen.Default.hvFullDs := by same_gen [Gen.hvFullDs, Gen.Default.hvFullDs]
+     have e2 : @Gen.hvSaveFull = @Gen.Default.hvSaveFull := by same_gen [Gen.hvSaveFull, Gen.Default.hvSaveFull]
      simp only [Gen.hvExpandDims, Gen.Default.hvExpandDims, rewriteSpec, stBind_pure, e1, e2]
      congr 1; funext st1
      cases (if o.memIsNone st1 then Except.error x.noneAttr else xf (o.mem st1)) <;> cases dn <;> simp
@@ -216,8 +217,8 @@ theorem hvDropSel_eq_spec {S D G E : Type} (o : StoreOps S D G E) (x : StoreExt 
      congr 1; funext st1
      cases (if o.memIsNone st1 then Except.error x.noneAttr else xf (o.mem st1)) <;> cases dn <;> simp
      done)
-  | (have e1 : @Gen.hvFullDs = @Gen.Default.hvFullDs := rfl
-     have e2 : @Gen.hvSaveFull = @Gen.Default.hvSaveFull := rfl
+  | (have e1 : @Gen.hvFullDs = @Gen.Default.hvFullDs := by same_gen [Gen.hvFullDs, Gen.Default.hvFullDs]
+     have e2 : @Gen.hvSaveFull = @Gen.Default.hvSaveFull := by same_gen [Gen.hvSaveFull, Gen.Default.hvSaveFull]
      simp only [Gen.hvDropSel, Gen.Default.hvDropSel, rewriteSpec, stBind_pure, e1, e2]
      congr 1; funext st1
      cases (if o.memIsNone st1 then Except.error x.noneAttr else xf (o.mem st1)) <;> cases dn <;> simp
@@ -326,7 +327,7 @@ theorem hvHarvest_eq_addDs {S D G E : Type} (o : StoreOps S D G E) (x : StoreExt
       (match run with | .error e => (st, some e) | .ok N => Gen.hvAddDs o dn sync ow N g st) := by
   first
   | (constructor <;> cases run <;> simp [Gen.hvHarvestCombos, Gen.hvHarvestCases, stBind_pure]; done)
-  | (have e1 : @Gen.hvAddDs = @Gen.Default.hvAddDs := rfl
+  | (have e1 : @Gen.hvAddDs = @Gen.Default.hvAddDs := by same_gen [Gen.hvAddDs, Gen.Default.hvAddDs]
      constructor <;> cases run <;>
        simp [Gen.hvHarvestCombos, Gen.Default.hvHarvestCombos, Gen.hvHarvestCases, Gen.Default.hvHarvestCases, stBind_pure, e1]
      done)
@@ -338,7 +339,7 @@ theorem hvHarvestCombos_ellipsis {S D G E : Type} (o : StoreOps S D G E) (x : St
       stBind (Gen.hvFullDs o x st) fun st => Gen.hvHarvestCombos o x dn false sync ow run g st := by
   first
   | (simp [Gen.hvHarvestCombos, stBind_pure]; done)
-  | (have e1 : @Gen.hvFullDs = @Gen.Default.hvFullDs := rfl
+  | (have e1 : @Gen.hvFullDs = @Gen.Default.hvFullDs := by same_gen [Gen.hvFullDs, Gen.Default.hvFullDs]
      simp [Gen.hvHarvestCombos, Gen.Default.hvHarvestCombos, stBind_pure, e1]; done)
 
 /-- `chunks` is handed on to `add_ds` by both methods -/
